@@ -32,7 +32,7 @@ SITE_CALL = "sparseSpACE.StandardCombi:StandardCombi.__call__"
 
 VERSIONS = (6, 2, 3, 7, 8)
 LEVELS = ((1, 2), (1, 3), (2, 3))
-MARGINS = (0.5, 0.9, 1.0)
+MARGINS = (0.5, 0.9, 1.0, 0.0)   # 0.0: every interval qualifies (an explicit margin of 0 must not fall back to the default)
 DOMAINS = {
     "unit": ([0.0, 0.0, 0.0], [1.0, 1.0, 1.0]),
     "test": ([-3.0, -3.0, -3.0], [6.0, 6.0, 6.0]),
@@ -332,6 +332,6 @@ def covering_cases(rng, quick):
                 d = 2 + (k % 2) if not quick else (3 if k % 5 == 4 else 2)
                 lv = LEVELS[k % 3]
                 out.append(random_case(rng, quick, d=d, levels=lv, version=version, rebalancing=reb, boundary=bnd,
-                                       margin=MARGINS[(k // 2) % 3]))
+                                       margin=MARGINS[(k // 2) % len(MARGINS)]))
                 k += 1
     return out
